@@ -587,7 +587,12 @@ impl ASN1Type {
                                 ))),
                             );
                         }
-                        (Parameter::InformationObjectParameter(_), _) => todo!(),
+                        (Parameter::InformationObjectParameter(_), _) => {
+                            return Err(grammar_error!(
+                                LinkerError,
+                                "Information object arguments of parameterized types are currently unsupported!"
+                            ))
+                        }
                         (Parameter::ObjectSetParameter(o), ParameterGovernor::Class(c)) => {
                             match &o.values.first() {
                                     Some(osv) if o.values.len() == 1 => {
